@@ -2,6 +2,7 @@ package expr
 
 import (
 	"fmt"
+	"math"
 
 	"github.com/verily-src/fhirpath-go/fhirpath/system"
 )
@@ -118,6 +119,9 @@ func EvaluateDiv(lhs, rhs system.Any) (system.Any, error) {
 	switch left := lhs.(type) {
 	case system.Integer:
 		if right, ok := rhs.(system.Integer); ok {
+			if right == 0 {
+				return nil, system.ErrDivideByZero
+			}
 			return left.Div(right), nil
 		}
 		if _, ok := rhs.(system.Quantity); ok {
@@ -126,6 +130,9 @@ func EvaluateDiv(lhs, rhs system.Any) (system.Any, error) {
 		return nil, typeMismatch(Div, lhs, rhs)
 	case system.Decimal:
 		if right, ok := rhs.(system.Decimal); ok {
+			if right.IsZero() {
+				return nil, system.ErrDivideByZero
+			}
 			return left.Div(right), nil
 		}
 		if _, ok := rhs.(system.Quantity); ok {
@@ -144,6 +151,12 @@ func EvaluateFloorDiv(lhs, rhs system.Any) (system.Any, error) {
 	switch left := lhs.(type) {
 	case system.Integer:
 		if right, ok := rhs.(system.Integer); ok {
+			if right == 0 {
+				return nil, system.ErrDivideByZero
+			}
+			if left == math.MinInt32 && right == -1 {
+				return nil, system.ErrIntOverflow
+			}
 			return left.FloorDiv(right), nil
 		}
 		if _, ok := rhs.(system.Quantity); ok {
@@ -152,6 +165,9 @@ func EvaluateFloorDiv(lhs, rhs system.Any) (system.Any, error) {
 		return nil, typeMismatch(FloorDiv, lhs, rhs)
 	case system.Decimal:
 		if right, ok := rhs.(system.Decimal); ok {
+			if right.IsZero() {
+				return nil, system.ErrDivideByZero
+			}
 			return left.FloorDiv(right)
 		}
 		if _, ok := rhs.(system.Quantity); ok {
@@ -170,6 +186,9 @@ func EvaluateMod(lhs, rhs system.Any) (system.Any, error) {
 	switch left := lhs.(type) {
 	case system.Integer:
 		if right, ok := rhs.(system.Integer); ok {
+			if right == 0 {
+				return nil, system.ErrDivideByZero
+			}
 			return left.Mod(right), nil
 		}
 		if _, ok := rhs.(system.Quantity); ok {
@@ -178,6 +197,9 @@ func EvaluateMod(lhs, rhs system.Any) (system.Any, error) {
 		return nil, typeMismatch(Mod, lhs, rhs)
 	case system.Decimal:
 		if right, ok := rhs.(system.Decimal); ok {
+			if right.IsZero() {
+				return nil, system.ErrDivideByZero
+			}
 			return left.Mod(right), nil
 		}
 		if _, ok := rhs.(system.Quantity); ok {
